@@ -540,12 +540,26 @@ static bool mi_segment_purge(mi_segment_t* segment, uint8_t* p, size_t size) {
     // purging
     mi_assert_internal((void*)start != (void*)segment);
     mi_assert_internal(segment->allow_decommit);
-    const bool decommitted = _mi_os_purge(start, full_size);  // reset or decommit
-    if (decommitted) {
+    if (!mi_commit_mask_all_set(&segment->commit_mask, &mask) && !(mi_option_is_enabled(mi_option_purge_decommits) && !_mi_preloading())) {
+      // purging by reset while the range is only partially committed (an immediate purge of a freed span
+      // that extends beyond what was committed): a reset is invalid for uncommitted memory, reset the committed parts only.
       mi_commit_mask_t cmask;
       mi_commit_mask_create_intersect(&segment->commit_mask, &mask, &cmask);
-      _mi_stat_increase(&_mi_stats_main.committed, full_size - _mi_commit_mask_committed_size(&cmask, MI_SEGMENT_SIZE)); // adjust for double counting
-      mi_commit_mask_clear(&segment->commit_mask, &mask);
+      size_t idx;
+      size_t count;
+      mi_commit_mask_foreach(&cmask, idx, count) {
+        if (count > 0) { _mi_os_purge((uint8_t*)segment + (idx*MI_COMMIT_SIZE), count*MI_COMMIT_SIZE); }
+      }
+      mi_commit_mask_foreach_end()
+    }
+    else {
+      const bool decommitted = _mi_os_purge(start, full_size);  // reset or decommit
+      if (decommitted) {
+        mi_commit_mask_t cmask;
+        mi_commit_mask_create_intersect(&segment->commit_mask, &mask, &cmask);
+        _mi_stat_increase(&_mi_stats_main.committed, full_size - _mi_commit_mask_committed_size(&cmask, MI_SEGMENT_SIZE)); // adjust for double counting
+        mi_commit_mask_clear(&segment->commit_mask, &mask);
+      }
     }
   }
 
